@@ -200,6 +200,25 @@ func ruleC16(c *Ctx) {
 	seenTag := map[string]bool{}
 	tb.buildStores()
 	var supStore *ssa.Store
+	// which fields each tag case stores into (a case may keep its payload in a second field as well)
+	tagFields := map[string]map[string]bool{}
+	knownField := map[string]bool{}
+	for _, f := range rebaseTagField {
+		knownField[f] = true
+	}
+	for _, st := range tb.stores[enz] {
+		if st.Parent() != parse {
+			continue
+		}
+		if _, p, _ := rootAlloc(st.Addr); len(p) > 0 {
+			if tag, _ := tagOf(st.Block()); tag != "" {
+				if tagFields[tag] == nil {
+					tagFields[tag] = map[string]bool{}
+				}
+				tagFields[tag][strings.TrimPrefix(p[0], ".")] = true
+			}
+		}
+	}
 	for _, st := range tb.stores[enz] {
 		if st.Parent() != parse {
 			continue
@@ -218,6 +237,9 @@ func ruleC16(c *Ctx) {
 		val := tb.T(st.Val)
 		stV, whyV := holds, ""
 		switch {
+		case rebaseTagField[tag] != fieldName && tagFields[tag][rebaseTagField[tag]] && !knownField[fieldName]:
+			// the case fills its own field too; this is a further field of the record, not one of the format's
+			stV, whyV = unknown, fmt.Sprintf("the %s case also stores into %s, a field the format does not name; what that field is for is not read", tag, fieldName)
 		case rebaseTagField[tag] != fieldName:
 			stV, whyV = broken, fmt.Sprintf("the %s case stores into field %s; format 31 assigns %s to %s", tag, fieldName, tag, rebaseTagField[tag])
 		case fieldName == "Isoschizomers":
